@@ -8,6 +8,7 @@
 package zzverif
 
 import (
+	"runtime"
 	"encoding/json"
 	"fmt"
 	"math"
@@ -145,6 +146,17 @@ func IteStr(c bool, a, b string) string {
 }
 func Dec(x uint64) string { return strconv.FormatUint(x, 10) }
 func HeldLocks() int      { return 0 }
+
+// Yield is a scheduling point of the engine's thread model.
+func Yield() { runtime.Gosched() }
+
+// WaitUntil blocks the calling goroutine until cond holds (cond must be
+// side-effect free; in the engine it is evaluated by the scheduler).
+func WaitUntil(cond func() bool) {
+	for !cond() {
+		runtime.Gosched()
+	}
+}
 func LockLog() int        { return 0 }
 func Catch(f func()) (panicked bool) {
 	defer func() {
